@@ -7,6 +7,7 @@ From Coq Require Import Strings.Byte.
 From WH Require Import lib.Bytes lib.Ralph lib.RalphLoop gen.Extracted gen.ExtractedGov.
 From WH Require Import model.Vaa model.Contracts model.RalVerifyModel model.ProcSpec model.GovPipeline.
 From WH Require Import proofs.QuorumProofs proofs.RalVerifyProofs proofs.GovPipelineProofs.
+From WH Require proofs.LayoutProofs.
 Import ListNotations.
 Import ExtractedGov.RalGlue.
 Open Scope Z_scope.
@@ -59,13 +60,15 @@ Qed.
 
 (* what a quorum of guardians publishes is accepted by the translated entry point of a contract that holds their set as current, and
    the node's field values are what it returns *)
-Theorem ral_source_accepts_published ct st w K :
+Theorem ral_source_accepts_published ct st gov w K :
   qvalid recover keccak w K -> wf w -> Forall (fun k => length k = 20%nat) K -> (0 < length K <= 255)%nat ->
   rc_gs_index ct = gsidx w -> rc_guardians ct = guardians_of K -> gs_cur_idx st = rc_gs_index ct -> gs_cur st = rc_guardians ct ->
-  ral_source keccak (eth_ec_recover recover) st true (marshal w) =
+  ral_source keccak (eth_ec_recover recover) st gov (marshal w) =
   Some [RZ (echain w); RZ (tchain w); RB (eaddr w); RZ (seq w); RB (payload w)].
 Proof.
   intros Hq W FK LK Hgi Hg Hi Hc.
+  rewrite (ral_source_flag_irrelevant keccak (eth_ec_recover recover) st (marshal w) _ gov true (LayoutProofs.ral_parse_marshal w W))
+    by (cbn [rv_gsidx]; congruence).
   rewrite <- (ral_receive_is_the_translated_source ct st (marshal w) Hi Hc).
   rewrite (ral_receive_published recover keccak ct w K Hq W FK LK Hgi Hg). reflexivity.
 Qed.
